@@ -49,6 +49,8 @@ def class_key(r, tab):
     decl = r["declin"] or r["ns"]
     if r["found"]:
         return "arity:%s#%s:declared=%d:runtime=%d+opt%d" % (decl, r["name"], r["total"], r["pc"], r["opc"])
+    if r["rwhere"] in ("no-runtime-constant", "not-a-namespace", "no-singleton", "no-module-class", "interface"):
+        return "no-runtime-class:%s" % r["ns"]
     if r["name"] == "#init":
         return "no-runtime-init:%s:declared=%d" % (r["ns"], r["total"])
     if r["kind"] == "inh" and decl in tab.mixin_names and decl not in tab.ranc.get(r["ns"], set()):
@@ -166,7 +168,19 @@ def closure_arg(t, ns):
     m = re.match(r"^\|(.*)\|: (.*?)( ! .*)?$", t)
     if not m:
         return None
-    params = [p for p in m.group(1).split(", ") if p] if m.group(1) else []
+    params, depth, cur = [], 0, ""
+    for ch in m.group(1):
+        if ch in "[(|":
+            depth += 1
+        elif ch in "])":
+            depth -= 1
+        if ch == "," and depth == 0:
+            params.append(cur)
+            cur = ""
+        else:
+            cur += ch
+    if cur.strip():
+        params.append(cur)
     names = ["a", "b", "c", "d"][:len(params)]
     ret = m.group(2).strip()
     if ret in ("bool", "Std::Bool"):
@@ -301,8 +315,11 @@ def gen_calls(tab, rng, per_row, only=None):
 
 CASE = """println("B\\t%(id)s")
 do
-  var r: Value = %(expr)s
-  println("R\\t%(id)s\\t" + r.class.name)
+  var r: any = %(expr)s
+  switch r
+  case Value() as v
+    println("R\\t%(id)s\\t" + v.class.name)
+  end
 catch Value() as e
   println("E\\t%(id)s\\t" + e.class.name)
 end
@@ -314,8 +331,11 @@ do
 catch Value() as e
   println("E\\t%(id)s\\t" + e.class.name)
 end
+#
+#
+#
 """
-CASE_LINES = 7
+CASE_LINES = 10
 
 
 def program(chunk):
@@ -419,7 +439,7 @@ def panic_class(detail):
     return re.sub(r"[^a-zA-Z]+", "-", d)[:40].strip("-")
 
 
-def stream_calls(ctx, tab, elk, bad_rows):
+def stream_calls(ctx, tab, elk, bad_rows, only_keys=None):
     stream = "c28.calls"
     rng = ctx.rng(stream)
     checked = set()
@@ -428,22 +448,31 @@ def stream_calls(ctx, tab, elk, bad_rows):
             if c not in ("never", "*", "void", "self", ""):
                 checked.add(c)
     # rows the table already rejects are executed once per class (confirmation), the others are sampled
-    good = [r["idx"] for r in tab.rows if r["idx"] not in bad_rows and r["found"]]
+    good = [r["idx"] for r in tab.rows if r["idx"] not in bad_rows and r["found"] and (only_keys is None or r["key"] in only_keys)]
     calls, skipped = gen_calls(tab, rng, ctx.n(1, 3), only=set(good))
     budget = ctx.n(1500, 10 ** 9)
-    # corpus rows (past failures) first
-    corpus = []
+    # corpus (past failures) first: lines `row-key` (all generated calls of that row) or `row-key<TAB>expression`
+    corpus, explicit = [], {}
     cpath = os.path.join(vlib.ROOT, "corpus", "C28.calls.txt")
     if os.path.exists(cpath):
         for line in open(cpath):
-            line = line.strip()
-            if line and not line.startswith("#"):
-                corpus.append(line)
+            line = line.rstrip("\n")
+            if line.strip() and not line.startswith("#"):
+                p = line.split("\t")
+                corpus.append(p[0])
+                if len(p) > 1:
+                    explicit.setdefault(p[0], []).append(p[1])
+    rowbykey = {r["key"]: r for r in tab.rows}
     byrow = {}
     for c in calls:
         byrow.setdefault(c["row"]["key"], []).append(c)
     chosen = []
     for k in corpus:
+        r = rowbykey.get(k)
+        if r is None or r["idx"] in bad_rows:
+            continue
+        for e in explicit.pop(k, []):
+            chosen.append(dict(row=r, expr=e, argc=-1, void=(r["retset"] == "void" and r["name"] != "#init")))
         chosen += byrow.pop(k, [])
     n_corpus = len(chosen)
     rest = [c for k in sorted(byrow) for c in byrow[k]]
@@ -461,7 +490,11 @@ def stream_calls(ctx, tab, elk, bad_rows):
         cs, _ = gen_calls(tab, rng, 1, only={idx})
         if cs:
             confirm[k] = cs[0]
-    conf_list = [confirm[k] for k in sorted(confirm)][:ctx.n(60, 100000)]
+    for rk, exprs in explicit.items():     # corpus expressions of rows the table rejects: they are the confirmation
+        r = rowbykey.get(rk)
+        if r is not None and r["idx"] in bad_rows:
+            confirm[class_key(r, tab)] = dict(row=r, expr=exprs[0], argc=-1, void=False)
+    conf_list = [confirm[k] for k in sorted(confirm)][:ctx.n(400, 100000)]
     for i, c in enumerate(chosen + conf_list):
         c["id"] = "c%d" % i
     size = 40
@@ -488,7 +521,7 @@ def stream_calls(ctx, tab, elk, bad_rows):
         if c.get("flaky"):
             flaky += 1
         dist[kind] = dist.get(kind, 0) + 1
-        decl = r["declin"] or r["ns"]
+        decl = r["ns"]      # calls are keyed by the receiver's namespace (the row), not by the declaring mixin
         what = None
         if kind in ("panic", "fatal"):
             key = "calls:go_%s:%s#%s:%s" % (kind, decl, r["name"], panic_class(detail))
@@ -539,6 +572,8 @@ def stream_calls(ctx, tab, elk, bad_rows):
         confirmed[k] = dict(call=c["expr"], observed="%s %s" % (kind, detail[:200]))
     for k, v in skipped.items():
         dist["skipped:" + k] = v
+    ctx.extra["report_rejected_calls_sample"] = [
+        "%s -> %s" % (c["expr"], res[c["id"]][1][:160]) for c in chosen if res.get(c["id"], ("", ""))[0] == "rejected"][:12]
     ctx.extra["report_thrown_checked_class_not_in_declared_throw_type"] = throw_report
     ctx.stream(stream, len(chosen) + len(conf_list), len(distinct),
                "every declared/inherited std method with a runtime implementation whose receiver class has a literal in the catalogue "
@@ -587,17 +622,26 @@ def run(ctx):
     ctx.extra["timing_s"] = {"regenerate": round(t1 - t0, 1), "proof_gate": round(t2 - t1, 1)}
     if tab is None:
         return
+    # ---- replay: restrict everything to the rows named in the replay file
+    only_keys = None
+    if ctx.replay:
+        import json
+        case = (json.load(open(ctx.replay)).get("case") or {})
+        only_keys = set(case.get("rows") or []) | ({case["row"]} if case.get("row") else set())
+        ctx.extra["replay_rows"] = sorted(only_keys)
     # ---- table pre-check: every incompatible row must be a known finding
     bad_rows = {}
     byclass = {}
     for r in tab.rows:
+        if only_keys is not None and r["key"] not in only_keys:
+            continue
         if not compatible(r):
             k = class_key(r, tab)
             bad_rows[r["idx"]] = k
             byclass.setdefault(k, []).append(r)
     elk = vlib.build_elk()
     t3 = time.time()
-    confirmed = stream_calls(ctx, tab, elk, set(bad_rows))
+    confirmed = stream_calls(ctx, tab, elk, set(bad_rows), only_keys)
     ctx.extra["timing_s"].update({"build_elk": round(t3 - t2, 1), "calls": round(time.time() - t3, 1)})
     for k in sorted(byclass):
         rs = byclass[k]
@@ -633,3 +677,8 @@ def run(ctx):
         "count": len(tab.mixins), "pairs": ["%s <- %s" % m for m in tab.mixins[:120]]}
     ctx.extra["report_optional_count_differs"] = len(
         [r for r in tab.rows if r["found"] and r["pc"] == r["total"] and r["opc"] != r["opt"] and r["rkind"] == "native"])
+
+
+def setup_gen():
+    """called by setup.sh: write coq/Gen/C28_Headers.v before the full make"""
+    regenerate(vlib.Ctx("C28", "quick", 1))
